@@ -647,7 +647,7 @@ def scenario_crash_forward(seed):
         w.destroy()
 
 
-def scenario_crash_backup(seed):
+def scenario_crash_backup(seed, force=None):
     '''C05: die between the history rollback and the UTXO rollback of a backed-up block, restart, catch up with
     the daemon on (a) the new branch, (b) the old branch again, (c) forced reorg where the chain never changed.'''
     rnd = random.Random(seed)
@@ -657,6 +657,8 @@ def scenario_crash_backup(seed):
         blocks.append(g.make_block(blocks))
     cont = rnd.choice(['new-branch', 'old-branch', 'forced-same-chain'])
     cut = rnd.choice(['between-history-and-utxo', 'after-utxo'])
+    if force:
+        cut, cont = force
     desc = {'seed': seed, 'blocks': len(blocks), 'cut': cut, 'continuation': cont}
     w = World()
     try:
@@ -774,7 +776,7 @@ def scenario_undo_window(seed, falling=False):
         w.destroy()
 
 
-def scenario_compaction(seed):
+def scenario_compaction(seed, force_mode=None, force_rowlen=None):
     '''C14: compaction in one go / with small batch limits / killed between batches / abandoned then indexing.'''
     rnd = random.Random(seed)
     g = ChainGen(rnd)
@@ -783,6 +785,7 @@ def scenario_compaction(seed):
         blocks.append(g.make_block(blocks))
     mode = rnd.choice(['one-go', 'batches', 'killed-between-batches', 'abandoned-then-index', 'killed-before-set-flush-count'])
     rowlen = rnd.choice([1, 2, 3, 12500])
+    mode, rowlen = force_mode or mode, force_rowlen or rowlen
     desc = {'seed': seed, 'mode': mode, 'row_entries': rowlen, 'blocks': len(blocks)}
     w = World()
     try:
@@ -903,13 +906,23 @@ def scenario_compaction_twice(seed):
         w.destroy()
 
 
+def scenario_c05_kf(seed):
+    '''probe of the listed finding KF-C05-1'''
+    return scenario_crash_backup(seed, force=('between-history-and-utxo', 'old-branch' if seed % 2 else 'forced-same-chain'))
+
+
+def scenario_c14_kf(seed):
+    '''probe of the listed finding KF-C14-1: compaction completed, tool killed before set_flush_count, one-entry rows'''
+    return scenario_compaction(seed, force_mode='killed-before-set-flush-count', force_rowlen=1)
+
+
 def scenario_c14(seed):
     return scenario_compaction_twice(seed) if seed % 3 == 2 else scenario_compaction(seed)
 
 
 MODES = {'c01': scenario_c01, 'c02': scenario_forward, 'c03': scenario_reorg, 'c04': scenario_crash_forward,
          'c05': scenario_crash_backup, 'c14': scenario_c14, 'c15': scenario_undo_window,
-         'c15-falling': scenario_undo_window_falling}
+         'c15-falling': scenario_undo_window_falling, 'c14-kf': scenario_c14_kf, 'c05-kf': scenario_c05_kf}
 
 
 def main():
